@@ -214,7 +214,8 @@ func (rt *runtime) convertNumeric(v Value, t reflect.Type) reflect.Value {
 	val := reflect.ValueOf(v.export())
 
 	if val.Kind() == t.Kind() {
-		return val
+		// t may be a named type of that kind.
+		return val.Convert(t)
 	}
 
 	if val.Kind() == reflect.Interface {
@@ -226,7 +227,7 @@ func (rt *runtime) convertNumeric(v Value, t reflect.Type) reflect.Value {
 		f64 := val.Float()
 		switch t.Kind() {
 		case reflect.Float64:
-			return reflect.ValueOf(f64)
+			return reflect.ValueOf(f64).Convert(t)
 		case reflect.Float32:
 			if reflect.Zero(t).OverflowFloat(f64) {
 				panic(rt.panicRangeError("converting float64 to float32 would overflow"))
